@@ -78,6 +78,21 @@ def check_bundle(ctx, d, index, fmt, reffmt, atype, label):
     from basis_set_exchange import bundle, writers, refconverters, misc
     ext = {'zip': '.zip', 'tbz': '.tar.bz2'}[atype]
     out = os.path.join(tempfile.gettempdir(), 'vb_%d_%s%s' % (os.getpid(), label.replace('/', '_'), ext))
+    if (len(label) + len(fmt)) % 2:
+        # the output path already holds an archive (an earlier bundle): the new bundle replaces it - nothing of it survives
+        if atype == 'zip':
+            import zipfile
+            with zipfile.ZipFile(out, 'w') as z:
+                z.writestr('basis_set_bundle-old/STALE.txt', 'stale')
+                z.writestr('basis_set_bundle-%s-%s/README.txt' % (fmt, reffmt), 'stale readme')
+        else:
+            import io
+            import tarfile
+            with tarfile.open(out, 'w:bz2') as t:
+                ti = tarfile.TarInfo('basis_set_bundle-old/STALE.txt')
+                ti.size = 5
+                t.addfile(ti, io.BytesIO(b'stale'))
+        ctx.dist['bundle-over-existing-archive'] += 1
     r = impl.call(bundle.create_bundle, out, fmt, reffmt, None, d)
     ctx.case((label, fmt, reffmt, atype), True, 'bundle:%s:%s' % (fmt, atype))
     replay = {'kind': 'bundle', 'label': label, 'fmt': fmt, 'reffmt': reffmt, 'archive': atype, 'keys': sorted(index)}
